@@ -28,6 +28,10 @@ def _loader(case):
     import gcmpy
     from gcmpy import JointDegreeNames as JN
     keys = [tuple(k) for k in case["keys"]]
+    if case.get("np_keys"):
+        import numpy as np
+        dt = getattr(np, case["np_keys"])
+        keys = [tuple(dt(x) for x in k) for k in keys]        # keys loaded from numpy data (small values, no overflow)
     scale = case.get("scale", "int")
     W = sum(case["wts"])
     val = {"int": lambda w: w, "norm": lambda w: w / W, "unnorm": lambda w: w * 0.37}[scale]
@@ -104,7 +108,8 @@ def execute(case):
     ok = isinstance(out, list)
     enc = []
     for e in (out if ok else []):
-        good = isinstance(e, tuple) and len(e) == K and all(isinstance(x, int) and not isinstance(x, bool) and x >= 0 for x in e)
+        import numbers
+        good = isinstance(e, tuple) and len(e) == K and all(isinstance(x, numbers.Integral) and not isinstance(x, bool) and x >= 0 for x in e)
         ok = ok and good
         enc.append([int(x) for x in e] if good else [0] * K)
     tr["types_ok"] = bool(ok)
@@ -203,6 +208,11 @@ def run(chk):
             dists.append(dist_trace({"keys": KS[1], "wts": wts1, "sizes": [2], "N": 2, "scale": "norm", "pre": pre}))
             for N in (1, 3):
                 for tr, _w in leaves({"keys": KS[1], "wts": wts1, "sizes": [3], "N": N, "scale": "norm", "pre": pre}, max_leaves=40):
+                    traces.append(tr); chk.rng_leaves += 1
+    for dt in ("int64", "uint8", "uint16", "int32"):
+        for sizes in ([3], [2], [5]):
+            for N in (1, 2, 3):
+                for tr, _w in leaves({"keys": KS[1], "wts": [1, 1, 1], "sizes": sizes, "N": N, "scale": "int", "np_keys": dt}, max_leaves=30):
                     traces.append(tr); chk.rng_leaves += 1
     for wts in ([1, 2, 3], [5, 1, 1], [2, 2, 3], [1, 0, 6]):
         dists.append(dist_trace({"keys": KS[1], "wts": wts, "sizes": [2], "N": 2, "scale": "norm"}))
